@@ -4,6 +4,8 @@ import (
 	"bytes"
 	stdjson "encoding/json"
 	"fmt"
+	"math"
+	"strconv"
 	"strings"
 
 	"github.com/segmentio/encoding/json"
@@ -41,6 +43,11 @@ func runTokenizer(t *json.Tokenizer, b []byte) string {
 			return "SUBSLICE-VIOLATION"
 		}
 		out = append(out, tokObs(t.Value, byte(t.Delim), t.Depth, t.Index, t.IsKey))
+		if t.Delim == 0 && len(t.Value) > 0 {
+			if m := accessorMismatch(t); m != "" {
+				return "ACCESSOR-MISMATCH " + m + " on " + hexs(t.Value)
+			}
+		}
 	}
 	if t.Err != nil {
 		out = append(out, "ERR")
@@ -189,4 +196,55 @@ func c17() {
 			jTokReuse([]byte(genDoc(4)+pick([]string{"", "]", "x", "{"})), []byte(d))
 		}
 	}
+}
+
+// accessorMismatch: Kind/String/Int/Uint/Float/Bool report the class and decoded value of the scalar token the
+// tokenizer is positioned on, as encoding/json and strconv decode the same token text
+func accessorMismatch(t *json.Tokenizer) string {
+	v := t.Value
+	k := t.Kind()
+	switch c := v[0]; {
+	case c == '"':
+		if k.Class() != json.String {
+			return fmt.Sprintf("kind %d of a string", k)
+		}
+		var want string
+		if err := stdjson.Unmarshal(v, &want); err != nil {
+			return "" // not a complete string literal: outside the accessor contract
+		}
+		if got := t.String(); string(got) != want {
+			return fmt.Sprintf("String %q want %q", got, want)
+		}
+	case c == 't' || c == 'f':
+		if (c == 't' && k != json.True) || (c == 'f' && k != json.False) || t.Bool() != (c == 't') {
+			return fmt.Sprintf("kind %d / Bool %v", k, t.Bool())
+		}
+	case c == 'n':
+		if k != json.Null {
+			return fmt.Sprintf("kind %d of null", k)
+		}
+	case c == '-' || (c >= '0' && c <= '9'):
+		if k.Class() != json.Num {
+			return fmt.Sprintf("kind %d of a number", k)
+		}
+		if !stdjson.Valid(v) {
+			return ""
+		}
+		want, err := strconv.ParseFloat(string(v), 64)
+		if got := t.Float(); err == nil && math.Float64bits(got) != math.Float64bits(want) {
+			return fmt.Sprintf("Float %v want %v", got, want)
+		}
+		if i, err := strconv.ParseInt(string(v), 10, 64); err == nil {
+			if k == json.Float {
+				return "kind Float of an integer literal"
+			}
+			if k == json.Int && t.Int() != i {
+				return fmt.Sprintf("Int %d want %d", t.Int(), i)
+			}
+		}
+		if u, err := strconv.ParseUint(string(v), 10, 64); err == nil && k == json.Uint && t.Uint() != u {
+			return fmt.Sprintf("Uint %d want %d", t.Uint(), u)
+		}
+	}
+	return ""
 }
